@@ -1337,7 +1337,7 @@ Qed.
 
 (** One level step, as a single statement: for the i-th node u of level l+1 the recursive call is
     entered in a state satisfying the invariant of level l whose node list is, up to order, N+(u) /\ S. *)
-Theorem level_step_invariant_partial (d : graph) (K M l : nat) (b : box) (i : nat) :
+Theorem level_step_establishes_inv (d : graph) (K M l : nat) (b : box) (i : nat) :
   dag_wf d M -> 2 <= l -> inv d K M (S l) b -> i < nthn (b_ns b) (S l) ->
   let u := get_sub b (S l) i in
   let b3 := part_run l (sel_run l b u) in
